@@ -53,10 +53,17 @@ def run_stream(spec, ctx, stream, cases, tag):
         raise Broken('harness produced %d observations for %d cases' % (len(im), len(cs)))
     mi = []
     idx = []
-    for k, (c, i) in enumerate(zip(cs, im)):
-        m = spec.model_input(stream, c, i)
-        if m is not None:
-            mi.append(m); idx.append(k)
+    if stream.get('model_in_file'):
+        # the harness itself wrote the lines for the verified checker (one per case)
+        ex = rd(stream['model_in_file'])
+        if len(ex) != len(cs):
+            raise Broken('harness produced %d checker inputs for %d cases' % (len(ex), len(cs)))
+        mi = ex; idx = list(range(len(cs)))
+    else:
+        for k, (c, i) in enumerate(zip(cs, im)):
+            m = spec.model_input(stream, c, i)
+            if m is not None:
+                mi.append(m); idx.append(k)
     mo = [None] * len(cs)
     if mi:
         open(os.path.join(wd, 'model_in.txt'), 'w').write('\n'.join(mi) + '\n')
